@@ -53,6 +53,7 @@ type Exec struct {
 	wfSeen    map[[2]*Term]bool
 	ghosts    map[string]*Value
 	staticRecv types.Type
+	globalVals map[*types.Var]*Value
 }
 
 func (x *Exec) fr() *frame { return x.frames[len(x.frames)-1] }
